@@ -128,7 +128,7 @@ theorem declare_localViol (v : View) (f : Form) (h : localViol f = true) :
     simp [declare, declObj, h, isError]
 
 theorem judgeA_localViol (f : Form) (a : Agg) (h : localViol f = true) :
-    ∃ c, judgeA f a = .violates c ∧ c ≠ .c6_7_1p3_threadMismatchOtherScope := by
+    ∃ c, judgeA f a = .violates c ∧ c ≠ .c6_7_1p3_threadMismatchUnseenBlockExtern := by
   simp only [localViol, Bool.or_eq_true, decide_eq_true_eq] at h
   unfold judgeA
   by_cases h1 : f.kind = .func ∧ f.hasDef ∧ f.scope ≠ .file
@@ -174,7 +174,7 @@ theorem stepCheck_at {A : List Decl} {s : State} (inv : Inv A s) (f : Form) (hlv
            valid file' top' (ghostOf a') && decide (G file' top' (ghostOf a') = a') &&
              outOK f (aggs A) a' (c11Link f (visLink f A)) e
      | .violates c =>
-       decide (c = .c6_7_1p3_threadMismatchOtherScope) ||
+       decide (c = .c6_7_1p3_threadMismatchUnseenBlockExtern) ||
          isError (declare (viewOf s.file (topOf s) f.scope) f)
      | .undefined c =>
        decide (c ≠ .c6_9p5_externalRedefined) || isError (declare (viewOf s.file (topOf s) f.scope) f)
@@ -280,7 +280,7 @@ theorem core_sim (r : List Form) (h : verdictRev r = .ok) :
 /-- A history in which some declaration violates a constraint (other than the cross-scope
 `_Thread_local` mismatch) is rejected by the model. -/
 theorem viol_sim (r : List Form) (c : Clause) (h : verdictRev r = .violates c)
-    (hc : c ≠ .c6_7_1p3_threadMismatchOtherScope) : ∃ e, stepsRev r = .error e := by
+    (hc : c ≠ .c6_7_1p3_threadMismatchUnseenBlockExtern) : ∃ e, stepsRev r = .error e := by
   induction r with
   | nil => simp [verdictRev] at h
   | cons f older ih =>
